@@ -5,7 +5,7 @@
 
 use crate::c02::{self, CallPlan, CompCfg, Observed};
 use crate::handlers::Handler;
-use crate::nharness::{endpoint, net_and_connector, run_sim, spawn_server, ClientOpts, ServerOpts};
+use crate::nharness::{endpoint, net_and_connector, run_sim, spawn_server_hooked, ClientOpts, ServerOpts};
 use crate::rawcodec::RawMsg;
 use simcore::Sim;
 use simnet::NetCfg;
@@ -39,6 +39,10 @@ pub fn run(sim: &Sim, _idx: u64) {
     let sig_at_us = sim.pick(&[0u64, 1, 1_000, 5_000, 29_000, 30_000, 31_000, 45_000, 70_000, 100_000, 130_000, 200_000, 400_000]);
     let sig_after_entries = if by_event { sim.range(1, n as u64) as usize } else { 0 };
     let sig_extra_us = sim.pick(&[0u64, 0, 1, 500]);
+    // edge placement: the signal fires at the very instant the accept loop is handed one more
+    // connection (taken from the incoming stream before the signal) that already carries a call
+    let edge = sim.chance(1, 4);
+    let edge_at_us = sim.pick(&[0u64, 20, 1_000, 35_000, 90_000]);
     sim.nontrivial();
     sim.sample(|| {
         format!(
@@ -56,10 +60,29 @@ pub fn run(sim: &Sim, _idx: u64) {
             handler.add_script(p.id, p.script.clone());
         }
         handler.add_script(999, crate::handlers::Script { msgs: vec![b"late".to_vec()], ..Default::default() });
+        handler.add_script(998, crate::handlers::Script { msgs: vec![b"edge".to_vec()], ..Default::default() });
         let (sig_tx, sig_rx) = tokio::sync::oneshot::channel::<()>();
-        let srv = spawn_server(&handler, &no_comp(), &ServerOpts::default(), rx, Some(async move {
+        let sig_tx = Arc::new(Mutex::new(Some(sig_tx)));
+        let edge_fired: Arc<Mutex<Option<Duration>>> = Arc::new(Mutex::new(None));
+        // every connection the accept loop is handed is recorded (those are the accepted ones)
+        let yielded: Arc<Mutex<Vec<usize>>> = Arc::new(Mutex::new(vec![]));
+        let hook: Option<Box<dyn FnMut(usize) + Send>> = {
+            let (sig_tx, edge_fired, net2, sim2, m2, yielded) = (sig_tx.clone(), edge_fired.clone(), net.clone(), sim.clone(), m, yielded.clone());
+            Some(Box::new(move |conn_id: usize| {
+                yielded.lock().unwrap().push(conn_id);
+                if edge && conn_id >= m2 {
+                    if let Some(tx) = sig_tx.lock().unwrap().take() {
+                        let now = net2.now();
+                        sim2.ev(|| format!("t={now:?} SHUTDOWN SIGNAL fired as connection {conn_id} is handed to the accept loop"));
+                        *edge_fired.lock().unwrap() = Some(now);
+                        let _ = tx.send(());
+                    }
+                }
+            }))
+        };
+        let srv = spawn_server_hooked(&handler, &no_comp(), &ServerOpts::default(), rx, Some(async move {
             let _ = sig_rx.await;
-        }));
+        }), hook);
         // record the virtual instant at which the serve future resolves
         let resolved_at: Arc<Mutex<Option<(Duration, u64)>>> = Arc::new(Mutex::new(None));
         let srv = {
@@ -97,7 +120,20 @@ pub fn run(sim: &Sim, _idx: u64) {
         }
         // the signal
         let t_sig: Duration;
-        if by_event {
+        let mut edge_result: Option<Option<bool>> = None;
+        if edge {
+            tokio::time::sleep(Duration::from_micros(edge_at_us)).await;
+            let connector2 = connector.clone();
+            let r = tokio::time::timeout(Duration::from_secs(120), async move {
+                let ch = endpoint(&ClientOpts::default()).connect_with_connector_lazy(connector2);
+                let mut client = crate::rawsvc::raw_client::RawClient::new(ch);
+                let mut req = tonic::Request::new(RawMsg(bytes::Bytes::from_static(b"edge")));
+                req.metadata_mut().insert("sim-call", "998".parse().unwrap());
+                client.unary(req).await.map(|r| r.into_inner().0.to_vec())
+            })
+            .await;
+            edge_result = Some(r.ok().map(|x| matches!(x.as_deref(), Ok(b) if b == b"edge")));
+        } else if by_event {
             loop {
                 if handler.entered().len() >= sig_after_entries {
                     break;
@@ -113,10 +149,12 @@ pub fn run(sim: &Sim, _idx: u64) {
         } else {
             tokio::time::sleep(Duration::from_micros(sig_at_us)).await;
         }
-        t_sig = net.now();
+        t_sig = edge_fired.lock().unwrap().unwrap_or_else(|| net.now());
         let entered_at_signal = handler.entered().len();
-        sim.ev(|| format!("t={t_sig:?} SHUTDOWN SIGNAL ({entered_at_signal} handlers entered so far)"));
-        let _ = sig_tx.send(());
+        if let Some(tx) = sig_tx.lock().unwrap().take() {
+            sim.ev(|| format!("t={t_sig:?} SHUTDOWN SIGNAL ({entered_at_signal} handlers entered so far)"));
+            let _ = tx.send(());
+        }
         if entered_at_signal == 0 {
             sim.probe("signal-before-any-handler-entry");
         } else if entered_at_signal < n {
@@ -171,15 +209,31 @@ pub fn run(sim: &Sim, _idx: u64) {
                 }
             }
         }
+        // (1b) a call on a connection that the accept loop had taken when the signal fired
+        if let Some(r) = edge_result {
+            sim.probe("signal-as-connection-is-accepted");
+            // Not judged: whether such a call is served depends on whether its request reaches the
+            // server before the final GOAWAY of hyper's graceful shutdown; on the unmodified tree
+            // both outcomes occur (the call had not been accepted: its handler was never entered).
+            match r {
+                Some(true) => sim.probe("call-on-connection-accepted-at-signal-served"),
+                Some(false) => sim.probe("call-on-connection-accepted-at-signal-refused"),
+                None => v13(sim, "call-on-connection-accepted-at-signal-hangs", format!("the signal fired at {t_sig:?}, exactly as the accept loop was handed a connection carrying a call: no outcome within 120 virtual seconds")),
+            }
+        }
         // (2) no connection accepted after the signal
         if entered.contains(&999) || late_ok {
             v13(sim, "connection-accepted-after-signal", format!("the connection offered after the signal was served (handler entered: {}, call succeeded: {late_ok})", entered.contains(&999)));
         }
         // (3) the serve future resolves only after all (accepted) connections have closed, and does resolve
-        let drops: Vec<Option<Duration>> = net.server_drop_times().into_iter().take(conns_before_late.min(m)).collect();
+        let accepted: Vec<usize> = yielded.lock().unwrap().clone();
+        let all_drops = net.server_drop_times();
+        let drops: Vec<Option<Duration>> = accepted.iter().map(|id| all_drops[*id]).collect();
+        let _ = conns_before_late;
         if resolved {
             sim.probe("serve-resolved");
-            let seqs = net.server_drop_seqs();
+            let all_seqs = net.server_drop_seqs();
+            let seqs: Vec<Option<u64>> = accepted.iter().map(|id| all_seqs[*id]).collect();
             for (i, d) in drops.iter().enumerate() {
                 match (d, seqs.get(i).copied().flatten()) {
                     (None, _) => v13(sim, "serve-resolved-before-connections-closed", format!("serve future resolved at {t_res:?} while the server side of connection {i} is still open")),
